@@ -6,13 +6,17 @@ package main
 // which pipestance files named in its arguments are absent.
 
 import (
+	"bufio"
 	"encoding/json"
 	"fmt"
 	"os"
+	"os/exec"
 	"path"
+	"path/filepath"
 	"regexp"
 	"sort"
 	"strings"
+	"syscall"
 	"time"
 
 	"github.com/martian-lang/martian/martian/syntax"
@@ -61,6 +65,27 @@ func vdrTierB(c *Ctx, prop string) {
 			s.Signals = []TBSignal{{AfterMs: 400 + c.Rng.Intn(1500), Sig: []string{"INT", "KILL"}[c.Rng.Intn(2)]}}
 		}
 		specs = append(specs, s)
+	}
+	if prop == "C14" {
+		nk := 2
+		if c.Thorough {
+			nk = 6
+		}
+		for i := 0; i < nk; i++ {
+			spec, res := vdrTBKillOnReport(env, 1+i, []string{"rolling", "post", "strict"}[i%3], r)
+			r.hist("tierB-killwindow-final-" + res.Final)
+			if res.Final != "complete" {
+				r.note("tier B run %s not judged: %s %s", spec.Name, res.Final, res.Stuck)
+				continue
+			}
+			for _, vv := range vdrTierBAnalyse(spec, res, r) {
+				if vv.Prop == prop {
+					r.violate(Violation{Kind: "property", Key: vv.Key, What: "[tier B, mrp killed at the write of a fork's kill report, then restarted] " + vv.What,
+						Input: map[string]interface{}{"program": spec.Src, "vdrmode": spec.Vdr, "detail": vv.Extra}})
+				}
+			}
+			r.count("tierB-killwindow|"+spec.Name+spec.Vdr, true)
+		}
 	}
 	for i, res := range tbParallel(env, c, specs, 4) {
 		r.hist("tierB-final-" + res.Final)
@@ -293,4 +318,195 @@ func vdrTierBAnalyse(spec *TBSpec, res *TBResult, r *Result) []VdrViolation {
 		add("C14", "C14:tierB-no-pipestance-report", "no _vdrkill at the pipestance level after completion", nil)
 	}
 	return out
+}
+
+// ---- interruption INSIDE a fork's final kill ----
+
+const vdrKillWindowProgram = `filetype txt;
+
+stage SPLITTER(
+    in  int x,
+    out txt o,
+    src comp "x",
+) split (
+    in  int c,
+    out txt co,
+)
+
+stage CONS(
+    in  txt o,
+    in  int x,
+    out int r,
+    src comp "x",
+)
+
+pipeline TOP(
+    in  int x,
+    out int r,
+)
+{
+    call SPLITTER(
+        x = self.x,
+    )
+    call CONS(
+        o = SPLITTER.o,
+        x = self.x,
+    )
+    return (
+        r = CONS.r,
+    )
+}
+
+call TOP(
+    x = %d,
+)
+`
+
+var reStageX = regexp.MustCompile(`(?s)stage (\w+)\((.*?)src\s+comp\s+"x"`)
+
+// vdrTBKillOnReport runs real mrp on a pipestance whose splitting stage has
+// many chunk-level files, SIGKILLs mrp's process group at the instant the
+// stage fork's final kill report appears on disk (i.e. inside or right after
+// Fork.vdrKill), restarts mrp and lets it complete.
+func vdrTBKillOnReport(env *TBEnv, x int, mode string, r *Result) (*TBSpec, *TBResult) {
+	dir, _ := os.MkdirTemp(env.Root, "runk")
+	psdir := path.Join(dir, "ps")
+	wrap := path.Join(dir, "wrap.sh")
+	os.WriteFile(wrap, []byte(fmt.Sprintf(`#!/bin/sh
+name="$1"; shift
+"%s" -stage "$name" "$@"
+rc=$?
+if [ "$1" = "main" ] && [ "$name" = "SPLITTER" ]; then
+  i=0
+  while [ $i -lt 400 ]; do echo bulk > "$3/bulk_$i.bin"; i=$((i+1)); done
+fi
+exit $rc
+`, env.Harness)), 0o755)
+	src := fmt.Sprintf(vdrKillWindowProgram, x)
+	mroText := reStageX.ReplaceAllString(src, `stage ${1}(${2}src comp "`+wrap+` ${1}"`)
+	mro := path.Join(dir, "pipeline.mro")
+	os.WriteFile(mro, []byte(mroText), 0o644)
+	ctlPath := path.Join(dir, "control.json")
+	os.WriteFile(ctlPath, []byte(`{"extra_files":true}`), 0o644)
+	logPath := path.Join(dir, "jobs.log")
+	spec := &TBSpec{Name: fmt.Sprintf("kill-in-vdrKill-x%d", x), Src: reSrcX.ReplaceAllString(src, `src comp "fake"`), Vdr: mode,
+		Signals: []TBSignal{{Sig: "KILL"}}}
+	res := &TBResult{Name: spec.Name, PsDir: psdir}
+	start := func() *exec.Cmd {
+		cmd := exec.Command(env.Mrp, mro, "ps", "--disable-ui", "--jobmode=local", "--localcores=4", "--localmem=8",
+			"--vdrmode="+mode, "--autoretry=0")
+		cmd.Dir = dir
+		cmd.Env = append(os.Environ(), "VERIF_TB_MRO="+mro, "VERIF_TB_CTL="+ctlPath, "VERIF_TB_LOG="+logPath,
+			"VERIF_TB_PSDIR="+psdir, "MROPATH="+dir, "MRO_DISABLE_SYSTEMD_SCOPE=1")
+		cmd.SysProcAttr = &syscall.SysProcAttr{Setpgid: true}
+		if f, err := os.OpenFile(path.Join(dir, "mrp.out"), os.O_WRONLY|os.O_CREATE|os.O_APPEND, 0o644); err == nil {
+			cmd.Stdout, cmd.Stderr = f, f
+		}
+		if cmd.Start() != nil {
+			return nil
+		}
+		return cmd
+	}
+	waitGroup := func(pgid int) {
+		for i := 0; i < 200; i++ {
+			if syscall.Kill(-pgid, 0) != nil {
+				return
+			}
+			time.Sleep(25 * time.Millisecond)
+		}
+	}
+	// first incarnation: killed when the report of the splitting stage's fork appears
+	report := path.Join(psdir, "TOP", "SPLITTER", "fork0", "_vdrkill")
+	cmd := start()
+	if cmd == nil {
+		res.Final = "failed"
+		return spec, res
+	}
+	done := make(chan struct{})
+	go func() { cmd.Wait(); close(done) }()
+	fired := false
+	deadline := time.After(90 * time.Second)
+watch:
+	for {
+		select {
+		case <-done:
+			break watch
+		case <-deadline:
+			syscall.Kill(-cmd.Process.Pid, syscall.SIGKILL)
+			<-done
+			break watch
+		default:
+		}
+		if b, err := os.ReadFile(report); err == nil && len(b) > 0 && json.Valid(b) {
+			// the complete report is on disk
+			syscall.Kill(-cmd.Process.Pid, syscall.SIGKILL)
+			fired = true
+			<-done
+			break watch
+		}
+		time.Sleep(50 * time.Microsecond)
+	}
+	waitGroup(cmd.Process.Pid)
+	res.Incs = append(res.Incs, TBIncarnation{Signal: "KILL"})
+	if fired {
+		r.hist("tierB-killed-at-report-write")
+		left := 0
+		if ms, _ := filepath.Glob(path.Join(psdir, "TOP", "SPLITTER", "fork0", "chnk*", "files", "*")); ms != nil {
+			left = len(ms)
+		}
+		if left > 0 {
+			r.hist("tierB-killed-with-chunk-files-still-present")
+		}
+	} else {
+		r.hist("tierB-kill-trigger-not-reached")
+	}
+	os.Remove(path.Join(psdir, "_lock"))
+	// second incarnation: to completion
+	cmd = start()
+	if cmd == nil {
+		res.Final = "failed"
+		return spec, res
+	}
+	done2 := make(chan error, 1)
+	go func() { done2 <- cmd.Wait() }()
+	select {
+	case <-done2:
+	case <-time.After(120 * time.Second):
+		syscall.Kill(-cmd.Process.Pid, syscall.SIGKILL)
+		<-done2
+		res.Final = "timeout"
+	}
+	waitGroup(cmd.Process.Pid)
+	if res.Final == "" {
+		if cmd.ProcessState != nil && cmd.ProcessState.ExitCode() == 0 {
+			res.Final = "complete"
+		} else {
+			res.Final = "failed"
+		}
+	}
+	if f, err := os.Open(logPath); err == nil {
+		sc := bufio.NewScanner(f)
+		sc.Buffer(make([]byte, 1<<20), 1<<24)
+		for sc.Scan() {
+			var rec tbLogRec
+			if json.Unmarshal(sc.Bytes(), &rec) == nil {
+				res.Log = append(res.Log, rec)
+			}
+		}
+		f.Close()
+	}
+	if b, err := os.ReadFile(path.Join(psdir, "TOP", "fork0", "_outs")); err == nil {
+		res.TopOuts = compactJSON(b)
+	}
+	res.Tree = dirTree(psdir)
+	if res.Final != "complete" {
+		if b, err := os.ReadFile(path.Join(dir, "mrp.out")); err == nil {
+			o := string(b)
+			if len(o) > 900 {
+				o = o[len(o)-900:]
+			}
+			res.Stuck = o
+		}
+	}
+	return spec, res
 }
